@@ -1,7 +1,7 @@
 """Class kits: which specification modules, universes and adapters serve each class."""
 import xgi
 
-from . import core, drive_hg, hg
+from . import core, dhg, drive_hg, hg, sc
 from .gamma import Gamma
 
 FAM_H = [
@@ -16,12 +16,44 @@ HG_KIT = core.register(core.Kit(
     "H",
     mc_module="MC_HG", trace_module="TraceHG",
     universes={
-        "quick": {"NN": 2, "EdgeIds": "{0, 1, 100}", "MaxUid": 2, "MaxEdges": 2, "MaxAttr": 0, "Rich": "FALSE"},
-        "thorough": {"NN": 2, "EdgeIds": "{0, 1, 100}", "MaxUid": 2, "MaxEdges": 2, "MaxAttr": 1, "Rich": "TRUE"},
+        "quick": {"NN": 2, "EdgeIds": "{0, 1, 100}", "MaxUid": 2, "MaxEdges": 2, "MaxAttr": 0, "MaxLevel": 99,
+                  "Rich": "FALSE"},
+        "thorough": {"NN": 2, "EdgeIds": "{0, 1, 100}", "MaxUid": 2, "MaxEdges": 2, "MaxAttr": 1, "MaxLevel": 99,
+                     "Rich": "TRUE"},
     },
     invariants=["InvIntegrity", "InvUidFresh"],
     properties=["PropAddsPreserve", "PropAddNodeToEdgePreserve", "PropSwapPreserves", "PropFrozen",
                 "PropErrNoChange"],
     proj=hg.proj, build=hg.build, call=hg.call, gen=drive_hg.rand_op, cls=xgi.Hypergraph,
     families=FAM_H,
+))
+
+DHG_KIT = core.register(core.Kit(
+    "DH",
+    mc_module="MC_DHG", trace_module="TraceDHG",
+    universes={
+        "quick": {"NN": 2, "EdgeIds": "{0, 1, 100}", "MaxUid": 2, "MaxEdges": 2, "MaxAttr": 0, "MaxLevel": 99,
+                  "Rich": "FALSE"},
+        "thorough": {"NN": 2, "EdgeIds": "{0, 1, 100}", "MaxUid": 2, "MaxEdges": 2, "MaxAttr": 1, "MaxLevel": 99,
+                     "Rich": "TRUE"},
+    },
+    invariants=["InvDiIntegrity", "InvUidFresh"],
+    properties=["PropAddsPreserve", "PropAddNodeToEdgePreserve", "PropFrozen", "PropErrNoChange"],
+    proj=dhg.proj, build=dhg.build, call=dhg.call, gen=dhg.rand_op, cls=xgi.DiHypergraph,
+    families=FAM_H,
+))
+
+SC_KIT = core.register(core.Kit(
+    "SC",
+    mc_module="MC_SC", trace_module="TraceSC",
+    universes={
+        "quick": {"NN": 3, "EdgeIds": "{0, 100}", "MaxUid": 4, "MaxEdges": 4, "MaxAttr": 0, "MaxLevel": 4,
+                  "Rich": "FALSE"},
+        "thorough": {"NN": 3, "EdgeIds": "{0, 1, 100}", "MaxUid": 5, "MaxEdges": 5, "MaxAttr": 0, "MaxLevel": 6,
+                     "Rich": "TRUE"},
+    },
+    invariants=["InvIntegrity", "InvUidFresh", "InvClosed", "InvNoDup", "InvNoEmpty"],
+    properties=["PropAddsPreserve", "PropRemoveExact", "PropMaxOrder", "PropFrozen"],
+    proj=sc.proj, build=sc.build, call=sc.call, gen=sc.rand_op, cls=xgi.SimplicialComplex,
+    families=FAM_H, obs=sc.obs,
 ))
